@@ -28,6 +28,86 @@ use tendermint_proto::Protobuf;
 mod hex_common;
 use hex_common::*;
 
+// ------------------------------------------------------------------ allocator (harness process only)
+//
+// `read_response` allocates `vec![0u8; RESPONSE_SIZE_LIMIT]` (10 MiB, zeroed) for every call:
+// ~0.5 ms of memset (or ~1 ms of mmap/munmap on this machine) per read, which would limit the
+// check to a few hundred thousand reads.  This allocator recycles exactly that buffer per
+// thread: when the 10 MiB zeroed block it handed out is freed, the first `DIRTY` bytes (set by
+// the harness to the length of the stream it served, the only bytes a reader can have written)
+// are cleared again and the block is kept for the next `alloc_zeroed` of that size.  Every
+// 512th recycle the whole block is verified to be zero, so a codec that wrote anywhere else
+// into its buffer would stop the run as a machinery error instead of corrupting later cases.
+mod pool {
+    use std::alloc::{GlobalAlloc, Layout, System};
+    use std::cell::Cell;
+
+    pub const BIG: usize = 10 * 1024 * 1024;
+
+    thread_local! {
+        static POOLED: Cell<*mut u8> = const { Cell::new(std::ptr::null_mut()) };
+        static OUT: Cell<*mut u8> = const { Cell::new(std::ptr::null_mut()) };
+        pub static DIRTY: Cell<usize> = const { Cell::new(BIG) };
+        static RECYCLES: Cell<u64> = const { Cell::new(0) };
+    }
+
+    pub struct PoolAlloc;
+
+    unsafe impl GlobalAlloc for PoolAlloc {
+        unsafe fn alloc(&self, l: Layout) -> *mut u8 {
+            unsafe { System.alloc(l) }
+        }
+        unsafe fn alloc_zeroed(&self, l: Layout) -> *mut u8 {
+            if l.size() == BIG && l.align() == 1 {
+                let p = POOLED.with(|c| c.replace(std::ptr::null_mut()));
+                let p = if p.is_null() { unsafe { System.alloc_zeroed(l) } } else { p };
+                OUT.with(|c| c.set(p));
+                return p;
+            }
+            unsafe { System.alloc_zeroed(l) }
+        }
+        unsafe fn dealloc(&self, p: *mut u8, l: Layout) {
+            if l.size() == BIG && l.align() == 1 && OUT.with(|c| c.get()) == p && POOLED.with(|c| c.get()).is_null() {
+                OUT.with(|c| c.set(std::ptr::null_mut()));
+                let dirty = DIRTY.with(|c| c.get()).min(BIG);
+                unsafe { std::ptr::write_bytes(p, 0, dirty) };
+                let n = RECYCLES.with(|c| {
+                    c.set(c.get() + 1);
+                    c.get()
+                });
+                if n % 512 == 1 {
+                    let all = unsafe { std::slice::from_raw_parts(p, BIG) };
+                    if all.iter().any(|b| *b != 0) {
+                        // cannot allocate/format here: plain abort with a fixed message
+                        let msg = b"MACHINERY-ERROR property=C30 recycled read buffer was written beyond the served stream\n";
+                        unsafe { libc::write(1, msg.as_ptr() as *const _, msg.len()) };
+                        unsafe { libc::_exit(2) };
+                    }
+                }
+                POOLED.with(|c| c.set(p));
+                return;
+            }
+            unsafe { System.dealloc(p, l) }
+        }
+        unsafe fn realloc(&self, p: *mut u8, l: Layout, new_size: usize) -> *mut u8 {
+            if l.size() == BIG && l.align() == 1 {
+                // generic path so that a pooled block never reaches System.realloc unnoticed
+                let nl = unsafe { Layout::from_size_align_unchecked(new_size, l.align()) };
+                let np = unsafe { System.alloc(nl) };
+                if !np.is_null() {
+                    unsafe { std::ptr::copy_nonoverlapping(p, np, l.size().min(new_size)) };
+                    unsafe { self.dealloc(p, l) };
+                }
+                return np;
+            }
+            unsafe { System.realloc(p, l, new_size) }
+        }
+    }
+}
+
+#[global_allocator]
+static ALLOC: pool::PoolAlloc = pool::PoolAlloc;
+
 static NONTRIVIAL: AtomicU64 = AtomicU64::new(0);
 static FLAKY: AtomicU64 = AtomicU64::new(0);
 
@@ -130,7 +210,13 @@ fn expected_value(m: &Msg) -> Got {
 fn reference_bytes(m: &Msg) -> Vec<u8> {
     match m {
         Msg::Req(r) => delimited(&request_payload(r)),
-        Msg::Resps(l) => l.iter().flat_map(|r| delimited(&response_payload(r))).collect(),
+        Msg::Resps(l) => {
+            let mut out = vec![];
+            for r in l {
+                out.extend_from_slice(&delimited(&response_payload(r)));
+            }
+            out
+        }
     }
 }
 
@@ -191,6 +277,8 @@ impl Chunks {
 }
 
 fn read_real(is_req: bool, data: &[u8], ends: ChunkEnds<'_>, pending: bool) -> Result<Result<Got, String>, String> {
+    // see `pool`: the only bytes a reader can put into the codec's buffer
+    pool::DIRTY.with(|c| c.set(data.len()));
     guard(|| {
         block_on(async {
             let mut r = ScriptedReader::new(data, ends, pending);
@@ -525,34 +613,38 @@ fn real_size(seed: u64) -> Vec<Msg> {
     ]
 }
 
-/// A hash request whose wire image is exactly `total` bytes.
-fn request_of_size(total: usize, seed: u64) -> Msg {
-    for l in 0..=total {
-        let m = Msg::Req(MRequest { data: MData::Hash(filler(l, seed)), amount: 1 });
-        if reference_bytes(&m).len() == total {
-            return m;
-        }
-    }
-    machinery_error("C30", &format!("no request of wire size {total}"));
+fn varint_len(v: u64) -> usize {
+    varint(v).len()
+}
+/// wire size of one response entry with a `b`-byte body and status OK
+fn entry_wire_len(b: usize) -> usize {
+    let payload = if b == 0 { 0 } else { 1 + varint_len(b as u64) + b } + 2;
+    varint_len(payload as u64) + payload
+}
+/// wire size of a hash request (amount 1) with an `l`-byte hash
+fn hash_request_wire_len(l: usize) -> usize {
+    let payload = 1 + varint_len(l as u64) + l + 2;
+    varint_len(payload as u64) + payload
 }
 
-/// A response list of `entries` equal-sized entries whose wire image is exactly `total` bytes.
+/// A hash request whose wire image is exactly `total` bytes.
+fn request_of_size(total: usize, seed: u64) -> Msg {
+    let l = (0..=total).find(|l| hash_request_wire_len(*l) == total).unwrap_or_else(|| machinery_error("C30", &format!("no request of wire size {total}")));
+    let m = Msg::Req(MRequest { data: MData::Hash(filler(l, seed)), amount: 1 });
+    assert_eq!(reference_bytes(&m).len(), total);
+    m
+}
+
+/// A response list of `entries` entries (all but the last equal-sized) whose wire image is
+/// exactly `total` bytes.
 fn responses_of_size(total: usize, entries: usize, seed: u64) -> Msg {
-    let per = total / entries;
-    let mut list: Vec<MResponse> = (0..entries).map(|_| MResponse { body: filler(per.saturating_sub(16), seed), status: 1 }).collect();
-    // grow the last entry byte by byte until the image has the wanted size
-    loop {
-        let n = reference_bytes(&Msg::Resps(list.clone())).len();
-        if n == total {
-            return Msg::Resps(list);
-        }
-        if n > total {
-            machinery_error("C30", &format!("cannot hit wire size {total}"));
-        }
-        let last = list.last_mut().unwrap();
-        let grow = (total - n).max(1).min(if total - n > 8 { total - n - 4 } else { 1 });
-        last.body = filler(last.body.len() + grow, seed);
-    }
+    let per = total / entries - 16;
+    let rest = total - (entries - 1) * entry_wire_len(per);
+    let last = (rest.saturating_sub(16)..=rest).find(|b| entry_wire_len(*b) == rest).unwrap_or_else(|| machinery_error("C30", &format!("cannot hit wire size {total}")));
+    let body = filler(per.max(last), seed);
+    let mut list: Vec<MResponse> = (0..entries - 1).map(|_| MResponse { body: body[..per].to_vec(), status: 1 }).collect();
+    list.push(MResponse { body: body[..last].to_vec(), status: 1 });
+    Msg::Resps(list)
 }
 
 #[derive(Clone, Debug)]
@@ -602,11 +694,16 @@ fn boundaries(m: &Msg) -> Vec<usize> {
 
 fn main() {
     let ctx = Ctx::from_args("C30");
-    pin_mmap_threshold();
+    assert_eq!(pool::BIG, RESPONSE_SIZE_LIMIT);
     let env = Env { seed: ctx.seed };
+    // all compositions for response streams of up to `nmax` bytes, request streams up to `nmax_req`
     let nmax: usize = ctx.tier.pick(12, 18);
+    let nmax_req: usize = ctx.tier.pick(16, 23);
+    // all compositions of every truncated stream of up to this many bytes
+    let trunc_comp: usize = ctx.tier.pick(6, 10);
     let list_len: usize = 3;
-    let wall_cap = std::time::Duration::from_secs(ctx.tier.pick(50, 800));
+    // sized for ~20 s (quick) / ~4 min (thorough) on 16 free cores; the cap only binds on a loaded machine
+    let wall_cap = std::time::Duration::from_secs(ctx.tier.pick(240, 840));
     let t0 = std::time::Instant::now();
 
     if let Some(c) = ctx.replay_case() {
@@ -657,7 +754,7 @@ fn main() {
     for (i, m) in msgs.iter().enumerate() {
         jobs.push(Job::Structured(i));
         let n = reference_bytes(m).len();
-        if i < n_small && n >= 1 && n <= nmax {
+        if i < n_small && n >= 1 && n <= if m.is_req() { nmax_req } else { nmax } {
             let total = 1u64 << (n - 1);
             let step = 1u64 << 12;
             let mut lo = 0;
@@ -669,31 +766,6 @@ fn main() {
     }
     for i in 0..limits.len() {
         jobs.push(Job::Limit(i));
-    }
-    if std::env::var("C30_TIMING").is_ok() {
-        eprintln!("setup done after {:.2}s, {} jobs", t0.elapsed().as_secs_f64(), jobs.len());
-        let m = &msgs[3];
-        let written = write_real(m, usize::MAX, false).unwrap().unwrap();
-        let s = Stream { is_req: m.is_req(), msg: Some(m.clone()), truncate: None, garbage: None };
-        let prep = prepare(&s, &written);
-        let t = std::time::Instant::now();
-        for i in 0..20000u64 {
-            let _ = read_real(true, &prep.bytes, ChunkEnds::Mask(i & 3), i % 2 == 0);
-        }
-        eprintln!("20000 request reads: {:.3}s", t.elapsed().as_secs_f64());
-        let m = &msgs[80];
-        let written = write_real(m, usize::MAX, false).unwrap().unwrap();
-        let t = std::time::Instant::now();
-        for i in 0..20000u64 {
-            let _ = read_real(false, &written, ChunkEnds::Mask(i & 3), i % 2 == 0);
-        }
-        eprintln!("20000 response reads: {:.3}s", t.elapsed().as_secs_f64());
-        let t = std::time::Instant::now();
-        let mut r = Report::new();
-        for i in 0..20000u64 {
-            eval(&env, &s, &prep, &Chunks::Mask(i & 3), i % 2 == 0, &mut r);
-        }
-        eprintln!("20000 evals: {:.3}s", t.elapsed().as_secs_f64());
     }
     // cheap jobs first, compositions ordered by message (simplest first)
     let composed_msgs = AtomicU64::new(0);
@@ -736,7 +808,7 @@ fn main() {
                     let pt = prepare(&st, &written);
                     eval(&env, &st, &pt, &Chunks::Fixed(usize::MAX >> 1), false, rep);
                     eval(&env, &st, &pt, &Chunks::Fixed(1), true, rep);
-                    if !real && k <= nmax.min(10) && k >= 1 {
+                    if !real && k <= trunc_comp && k >= 1 {
                         for mask in 0..(1u64 << (k - 1)) {
                             eval(&env, &st, &pt, &Chunks::Mask(mask), mask % 2 == 1, rep);
                         }
@@ -808,7 +880,7 @@ fn main() {
     rep.extra("messages_real_size", json!(msgs.len() - n_small));
     rep.extra("messages_at_size_limits", json!(limits.len()));
     rep.extra("messages_with_all_compositions", json!(composed_msgs.load(Ordering::Relaxed)));
-    rep.extra("all_compositions_up_to_bytes", json!(nmax));
+    rep.extra("all_compositions_up_to_bytes", json!({"response_streams": nmax, "request_streams": nmax_req, "truncated_streams": trunc_comp}));
     rep.extra("distinct_nontrivial_by_construction", json!(NONTRIVIAL.load(Ordering::Relaxed)));
     rep.extra("non_reproducible_outcomes", json!(FLAKY.load(Ordering::Relaxed)));
     rep.extra("garbage_kinds", json!(garbage().iter().map(|g| g.0).collect::<Vec<_>>()));
@@ -820,7 +892,7 @@ fn finish_c30(ctx: &Ctx, rep: Report, _nmax: usize) -> ! {
         ctx,
         rep,
         Spec {
-            rule: "messages: requests {data ∈ none, origin 0/1/300/u64::MAX, hash of 0/1/3/32/200 bytes} x amount ∈ {1,0,127,128,512,u64::MAX}; response lists of 0..3 entries over {body 0..3 bytes} x {status 1,0,2,7} (+ status -1, i32::MAX, i32::MIN); 5 lists of real ~1.5 KiB validated headers; messages of wire size limit-1, limit, limit+1 (request 1024 B, response 10 MiB, 1 and 3 entries). Each is written by the real writer (3 sink behaviours) and read back under: ALL 2^(n-1) compositions into chunks for n <= NMAX bytes (NMAX=12 quick, 18 thorough), fixed chunks {whole,1,2,3,7,4096}, one cut at every position, for real-size lists all pairs of cuts from {entry/prefix boundaries ±2, every 97th byte}; each with and without a Pending before every chunk and EOF. Truncation at EVERY byte (whole / 1-byte chunks with Pending / all compositions of cuts <= 10 bytes); 14 undecodable prefixes (bad varints, length > remaining, length 2^32 / 2^63 / 2^64-1, invalid protobuf payloads) alone and before a valid message under all compositions; the same as tails. distinct = (stream, chunking, pending) by construction; non-trivial = more than one chunk, or a truncated / garbage stream",
+            rule: "messages: requests {data ∈ none, origin 0/1/300/u64::MAX, hash of 0/1/3/32/200 bytes} x amount ∈ {1,0,127,128,512,u64::MAX}; response lists of 0..3 entries over {body 0..3 bytes} x {status 1,0,2,7} (+ status -1, i32::MAX, i32::MIN); 5 lists of real ~1.5 KiB validated headers; messages of wire size limit-1, limit, limit+1 (request 1024 B, response 10 MiB, 1 and 3 entries). Each is written by the real writer (3 sink behaviours) and read back under: ALL 2^(n-1) compositions into chunks for streams of n <= NMAX bytes (responses: NMAX=12 quick, 18 thorough; requests: 16 quick, 23 thorough), fixed chunks {whole,1,2,3,7,4096}, one cut at every position, for real-size lists all pairs of cuts from {entry/prefix boundaries ±2, every 97th byte}; each with and without a Pending before every chunk and EOF. Truncation at EVERY byte (whole / 1-byte chunks with Pending / all compositions of the cut stream when it has <= 6 (quick) / 10 (thorough) bytes); 14 undecodable prefixes (bad varints, length > remaining, length 2^32 / 2^63 / 2^64-1, invalid protobuf payloads) alone and before a valid message under all compositions; the same as tails. distinct = (stream, chunking, pending) by construction; non-trivial = more than one chunk, or a truncated / garbage stream",
             assumptions: &[
                 "reading adopted for truncated response streams (DESIGN §5/S15): error or a proper prefix of the written list, never another value; the empty list writes zero bytes (= a stream cut at byte 0) and is expected to read as an error",
                 "a stream longer than the size limit, and a complete stream followed by undecodable bytes, are outside the statement: only 'no panic, no value other than (a prefix of) the written one' is demanded there",
